@@ -102,7 +102,7 @@ class HeaderGen:
             path = rng.choice(["/home/a.vhd", "b.v", "c/d.sv"])
             self.paths[pid] = path
             self.emit("$attrbegin misc 03 %s %d $end" % (path, pid))
-        line = rng.randint(0, 5000)
+        line = rng.choice([rng.randint(0, 5000), rng.randint(0, 5000), 2 ** 32, 2 ** 63 - 1, 2 ** 63, 2 ** 63 + 7, 2 ** 64 - 1])
         self.emit("$attrbegin misc 04 %d %d $end" % (pid, line))
         if self.pending_loc is None:
             self.pending_loc = (self.paths[pid], line)
@@ -211,11 +211,11 @@ def gen_header(rng, flatten, regime=None):
     meta = {"date": "", "version": "", "ts": "~"}
     todo_meta = []
     if rng.random() < 0.7:
-        d = rng.choice(["Mon Jan 1 2024", "today", "x"])
+        d = rng.choice(["Mon Jan 1 2024", "today", "x", "Mon Feb 22 19:49:29 2021\n    (UTC+1)", "a\tb", "line 1\r\nline 2\n\nline 4"])
         todo_meta.append(("date", d))
         meta["date"] = d
     if rng.random() < 0.7:
-        v = rng.choice(["Icarus Verilog", "tool 1.0  beta", "v"])
+        v = rng.choice(["Icarus Verilog", "tool 1.0  beta", "v", "tool\n  build 7\n  (x86)", "t\tv"])
         todo_meta.append(("version", v))
         meta["version"] = v
     if rng.random() < 0.8:
